@@ -572,6 +572,7 @@ const (
 	c35Set      = `function(r, f, v) { r[f] = v }`
 	c35Get      = `function(r, f) { r[f] }`
 	c35Delete   = `function(r, f) { r.Delete(f) }`
+	c35Erase    = `function(r, f) { r.Erase(f) }`
 	c35Copy     = `function(r) { r.Copy() }`
 	c35Inval1   = `function(r, f) { r.Invalidate(f) }`
 	c35Inval2   = `function(r, f, g) { r.Invalidate(f, g) }`
@@ -765,26 +766,93 @@ func c35script(t *rapid.T, erec *ev.Rec, l *lang) {
 		}
 	}
 
-	first := &c35rec{real: r.must(l.call(c35New)), plain: map[string]mval{}, st: map[string]int{}, cached: map[string]bool{}, depsSeen: map[string]map[string]bool{}, name: "r0"}
-	r.desc = append(r.desc, "r0 = Record()")
+	first := &c35rec{plain: map[string]mval{}, st: map[string]int{}, cached: map[string]bool{}, depsSeen: map[string]map[string]bool{}, name: "r0"}
 	recs := []*c35rec{first}
-	rulesFirst := gen.Chance(t, "rulesfirst", 50)
-	if rulesFirst {
+	// stored class: r0 is a record as read from the database (SuRecordFromRow, no
+	// transaction): base fields, previously computed rule values and their
+	// <rule>_deps columns. Model: the stored values are valid saved results
+	// with exactly the stored dependencies.
+	stored := gen.Chance(t, "stored", 25)
+	storedRules := 0
+	if stored {
+		for _, p := range w.plains {
+			if gen.Chance(t, "init", 75) {
+				first.plain[p] = mi(gen.Pick(t, "initv", c35lits))
+			}
+		}
+		rb := core.RecordBuilder{}
+		var cols, show []string
+		for _, p := range w.plains {
+			if v, ok := first.plain[p]; ok {
+				cols = append(cols, p)
+				rb.Add(v.value().(core.Packable))
+				show = append(show, fmt.Sprintf("%s: %v", p, v))
+			}
+		}
+		isStored := map[string]bool{}
+		for _, rd := range w.rules {
+			// a stored rule value implies that the rule fields it was computed from are stored too
+			ok := gen.Chance(t, "storerule", 85)
+			reads := keys(w.directReads(first, rd))
+			for _, f := range reads {
+				if w.isRule(f) && !isStored[f] {
+					ok = false
+				}
+			}
+			if !ok {
+				continue
+			}
+			isStored[rd.name] = true
+			storedRules++
+			v := w.seen(first, rd.name)
+			cols = append(cols, rd.name, rd.name+"_deps")
+			rb.Add(v.value().(core.Packable))
+			rb.Add(core.SuStr(strings.Join(reads, ",")))
+			show = append(show, fmt.Sprintf("%s: %v, %s_deps: %q", rd.name, v, rd.name, strings.Join(reads, ",")))
+			if v != ms("") { // an empty value is not stored: the rule runs on first access
+				first.st[rd.name] = stValid
+				first.cached[rd.name] = true
+			}
+			for _, f := range reads {
+				if first.depsSeen[f] == nil {
+					first.depsSeen[f] = map[string]bool{}
+				}
+				first.depsSeen[f][rd.name] = true
+			}
+		}
+		row := core.Row{core.DbRec{Record: rb.Build()}}
+		first.real = core.SuRecordFromRow(row, core.NewHeader([][]string{cols}, cols), "", nil)
+		r.desc = append(r.desc, "r0 = database row {"+strings.Join(show, ", ")+"}")
 		attachAll(first, gen.Chance(t, "attachgo", 50))
-	}
-	for _, p := range w.plains {
-		if gen.Chance(t, "init", 70) {
-			v := mi(gen.Pick(t, "initv", c35lits))
-			first.plain[p] = v
-			first.memo = nil
-			r.must(l.call(c35Set, first.real, core.SuStr(p), v.value()))
-			r.desc = append(r.desc, fmt.Sprintf("r0.%s = %v", p, v))
+	} else {
+		first.real = r.must(l.call(c35New))
+		r.desc = append(r.desc, "r0 = Record()")
+		rulesFirst := gen.Chance(t, "rulesfirst", 50)
+		if rulesFirst {
+			attachAll(first, gen.Chance(t, "attachgo", 50))
+		}
+		for _, p := range w.plains {
+			if gen.Chance(t, "init", 70) {
+				v := mi(gen.Pick(t, "initv", c35lits))
+				first.plain[p] = v
+				first.memo = nil
+				r.must(l.call(c35Set, first.real, core.SuStr(p), v.value()))
+				r.desc = append(r.desc, fmt.Sprintf("r0.%s = %v", p, v))
+			}
+		}
+		if !rulesFirst {
+			attachAll(first, gen.Chance(t, "attachgo", 50))
 		}
 	}
-	if !rulesFirst {
-		attachAll(first, gen.Chance(t, "attachgo", 50))
-	}
 	r.drain()
+	// for the label: is the first operation on the stored record that needs
+	// its dependencies a Delete / Erase?
+	depTouched, firstTouchIsDelete := !stored, false
+	touchDeps := func(rec *c35rec, isDelete bool) {
+		if rec == first && !depTouched {
+			depTouched, firstTouchIsDelete = true, isDelete
+		}
+	}
 
 	// previous direct reads per (record, rule), for the conditional-switch label
 	lastReads := map[string]string{}
@@ -814,6 +882,9 @@ func c35script(t *rapid.T, erec *ev.Rec, l *lang) {
 			if wasInvalid && !rec.readonly {
 				r.lab["get_evaluates"]++
 			}
+			if rec.st[f] != stValid {
+				touchDeps(rec, false)
+			}
 			w.touch(rec, f, &r.ev)
 			reads := strings.Join(keys(w.directReads(rec, rd)), ",")
 			key := rec.name + "." + f
@@ -823,6 +894,7 @@ func c35script(t *rapid.T, erec *ev.Rec, l *lang) {
 			lastReads[key] = reads
 			// dependencies are tracked automatically: everything the evaluation read is listed
 			if !rec.readonly && gen.Chance(t, "getdeps", 25) {
+				touchDeps(rec, false)
 				dv := r.must(l.call(c35GetDeps, rec.real, core.SuStr(f)))
 				ds, _ := dv.ToStr()
 				have := map[string]bool{}
@@ -869,6 +941,12 @@ func c35script(t *rapid.T, erec *ev.Rec, l *lang) {
 		if w.wide {
 			weights = []int{22, 36, 3, 2, 9, 5, 6, 2, 1}
 		}
+		if stored && step <= 4 {
+			// the first operations on a database record: plain reads, deletes, sets, ...
+			rec = first
+			sr = rec.real.(*core.SuRecord)
+			weights = []int{14, 22, 34, 4, 4, 5, 16, 0, 0}
+		}
 		// set, get, delete plain, delete rule, copy, invalidate, observer, remove observer, readonly
 		if rec.readonly {
 			weights = []int{0, 60, 0, 0, 10, 0, 0, 0, 0}
@@ -898,6 +976,7 @@ func c35script(t *rapid.T, erec *ev.Rec, l *lang) {
 			old := w.seen(rec, p)
 			var required []string
 			if old != v {
+				touchDeps(rec, false)
 				// counted before the change: which evaluated rules used p
 				required = append([]string{p}, w.change(rec, p, true, &r.ev)...)
 				if len(recs) > 1 {
@@ -948,11 +1027,17 @@ func c35script(t *rapid.T, erec *ev.Rec, l *lang) {
 			} else {
 				f = gen.Pick(t, "rule", w.rules).name
 			}
+			useErase := gen.Chance(t, "erase", 40)
 			text = fmt.Sprintf("%s.Delete(%q) [%s]", rec.name, f, route)
+			if useErase {
+				text = fmt.Sprintf("%s.Erase(%q) [%s]", rec.name, f, route)
+				r.lab["erase"]++
+			}
 			r.desc = append(r.desc, text)
 			var required []string
 			if opi == 2 {
 				if old, ok := rec.plain[f]; ok {
+					touchDeps(rec, true)
 					if old != ms("") {
 						required = w.change(rec, f, true, &r.ev)
 					} else {
@@ -963,18 +1048,27 @@ func c35script(t *rapid.T, erec *ev.Rec, l *lang) {
 				}
 			} else {
 				// the cached result is gone; the next access calls the rule
+				if rec.cached[f] {
+					touchDeps(rec, true)
+				}
 				w.change(rec, f, false, &r.ev)
 				rec.st[f] = stInvalid
 				rec.cached[f] = false
 			}
-			if useLang {
+			switch {
+			case useLang && useErase:
+				r.must(l.call(c35Erase, rec.real, core.SuStr(f)))
+			case useLang:
 				r.must(l.call(c35Delete, rec.real, core.SuStr(f)))
-			} else {
+			case useErase:
+				r.must(nil, l.protect(func() { sr.Erase(l.th, core.SuStr(f)) }), text)
+			default:
 				r.must(nil, l.protect(func() { sr.Delete(l.th, core.SuStr(f)) }), text)
 			}
 			r.settle(rec, text, required)
 		case 4: // copy
 			text = fmt.Sprintf("%s.Copy() [%s]", rec.name, route)
+			touchDeps(rec, false)
 			var cv core.Value
 			if useLang {
 				cv = r.must(l.call(c35Copy, rec.real))
@@ -1061,6 +1155,7 @@ func c35script(t *rapid.T, erec *ev.Rec, l *lang) {
 			}
 			text = fmt.Sprintf("%s.Invalidate(%s) [%s]", rec.name, strings.Join(fs, ", "), route)
 			r.desc = append(r.desc, text)
+			touchDeps(rec, false)
 			var required []string
 			for _, f := range fs {
 				required = append(required, f) // "This will also trigger any observers"
@@ -1158,6 +1253,10 @@ func c35script(t *rapid.T, erec *ev.Rec, l *lang) {
 	erec.LabelIf(conditional, "world_with_conditional_rule")
 	erec.LabelIf(len(recs) > 1, "script_with_copy")
 	erec.LabelIf(w.wide, "world_wide_6to10_rules")
+	erec.LabelIf(stored, "script_on_stored_deps_record")
+	erec.LabelIf(stored && storedRules > 0, "stored_record_with_rule_values_and_deps")
+	erec.LabelIf(stored && storedRules > 0 && firstTouchIsDelete, "stored_record_first_dependency_touching_op_is_delete_or_erase")
+	erec.LabelIf(stored && storedRules > 0 && depTouched && !firstTouchIsDelete, "stored_record_first_dependency_touching_op_is_other")
 	erec.LabelN("copies_made", len(pairs))
 	erec.Label(fmt.Sprintf("records_alive_at_end_%d", len(recs)))
 	diverge, pattern := false, false
